@@ -12,7 +12,7 @@ import (
 	"google.golang.org/grpc"
 )
 
-const zzNumShapes = 14
+const zzNumShapes = 17
 
 // zzEnvelope builds a request-side envelope of the given shape for stream id.
 func zzEnvelope(shape int, id uint64) *Rpc {
@@ -50,10 +50,20 @@ func zzEnvelope(shape int, id uint64) *Rpc {
 		return &Rpc{Id: id, Header: hdr("BidiStream"), Reset_: &goatorepo.Reset{Type: "RST_STREAM"}}
 	case 12:
 		return &Rpc{Id: id, Header: hdr("BidiStream"), Reset_: &goatorepo.Reset{Type: "SOMETHING_ELSE"}}
-	default:
+	case 13:
 		h := hdr("BidiStream")
 		h.Destination = "someone-else"
 		return &Rpc{Id: id, Header: h, Body: zzBody(4)}
+	case 14: // a message whose encoding is empty (zero-valued message): still a body, not an open
+		return &Rpc{Id: id, Header: hdr("BidiStream"), Body: &goatorepo.Body{}}
+	case 15: // unary request with a malformed timeout header (must be ignored, not misread)
+		h := hdr("Unary")
+		h.Headers = []*goatorepo.KeyValue{{Key: "GRPC-Timeout", Value: "10x"}}
+		return &Rpc{Id: id, Header: h, Body: zzBody(3)}
+	default: // stream open with a malformed timeout header
+		h := hdr("BidiStream")
+		h.Headers = []*goatorepo.KeyValue{{Key: "grpc-timeout", Value: "soon"}}
+		return &Rpc{Id: id, Header: h}
 	}
 }
 
@@ -122,12 +132,12 @@ func H_C12_seq() {
 			ids[i] = uint64(1 + vfChoice("id", 2))
 		}
 		switch shapes[i] {
-		case 5:
+		case 5, 15:
 			validUnary++
-		case 7:
+		case 7, 16:
 			opens++
 			opened[ids[i]] = true
-		case 9:
+		case 9, 14:
 			if !opened[ids[i]] {
 				orphanBodies++
 			}
